@@ -465,7 +465,7 @@ func names(maxSegs int) []string {
 type transportT struct{ kind, base string }
 
 func transports(tier string) []transportT {
-	bases := []string{"/", "/foo", "/foo/", "/a/b/", "/é/", "/a+b~c.d/"}
+	bases := []string{"/", "/foo", "/foo/", "/a/b", "/a/b/", "/é/", "/a+b~c.d/"}
 	if tier == "thorough" {
 		bases = append(bases, "/a%20b/", "/a?b/", "/a#b/", "/pkg.A/", "/pkg.A/M", "//x//", "/a;b=c/", "/A&B/")
 	}
